@@ -141,12 +141,13 @@ def timing():
     return out
 
 
-def replay(family, cfg, cap, hexs, variant='default'):
+def replay(family, cfg, cap, hexs, variant='default', history=None):
     d, exe, err = build(variant if variant in VARIANTS else 'default')
     try:
         if exe is None:
             return 2, 'witness build failed:\n' + err
-        p = subprocess.run([exe, 'replay', family, str(cfg), str(cap), hexs], capture_output=True, text=True, timeout=120)
+        extra = [history[0] or '', str(history[1]), str(history[2])] if history else []
+        p = subprocess.run([exe, 'replay', family, str(cfg), str(cap), hexs] + extra, capture_output=True, text=True, timeout=120)
         return p.returncode, p.stdout + p.stderr
     finally:
         shutil.rmtree(d, ignore_errors=True)
